@@ -30,8 +30,8 @@ ASSUMPTIONS = ['DemoStorage.random replaced by a generated stream of small integ
                'has no gc argument) is tolerated: nothing is packed, nothing changes',
                'after a pack through the demo storage only the current state and the base are compared (pack may drop '
                'old revisions; C07 covers pack)']
-BUDGET = {'quick': {'examples': 2000, 'workers': 8},
-          'thorough': {'examples': 20000, 'workers': 16}}
+BUDGET = {'quick': {'examples': 6000, 'workers': 8},
+          'thorough': {'examples': 40000, 'workers': 16}}
 
 CONFIGS = [('mapping', 'default'), ('mapping', 'mapping'), ('mapping', 'fs'),
            ('fs', 'default'), ('fs', 'mapping'), ('fs', 'fs')]
